@@ -1,5 +1,58 @@
-(** Property C03 — statements only (filled in below as the proofs land). *)
-From WacV Require Import Wiring.
-Theorem decode_empty : decode_wiring nil nil = Some {| w_insts := nil; w_exports := nil; w_comps := nil; w_names := nil |}.
-Proof. reflexivity. Qed.
-Print Assumptions decode_empty.
+(** Property C03 — output imports/exports are exactly those implied; implicit imports are shared.
+    Statements only. The comparison of the REAL import/export sections with [spec_imports] /
+    [spec_export_names] / [spec_import_needs] (extracted) is done by ./check C03 on every run. *)
+From Coq Require Import List.
+From WacV Require Import Str Semver Names Graph Wiring WiringSpec EncodeModel WiringSim WiringCorrect AggProofs WiringWitness.
+Import ListNotations.
+Local Open Scope nat_scope.
+
+(** the aggregator's name bookkeeping ([TypeAggregator::aggregate] / [canonical_import_name], name level):
+    for EVERY order in which import requirements are aggregated, each requirement is answered by ONE
+    entry (one import per semver track), named for the highest version among all aggregated names of
+    the track, carrying the sort the requirement asked for *)
+Theorem canonical_is_highest_on_track : forall L a nm s iid,
+  agg_run agg_empty L = Some a -> In (nm, s, iid) L ->
+  let c := canonical_name a nm in
+  In c (map (fun x : str * sort * option str => fst (fst x)) L) /\ compat c nm = true /\
+  (forall n s' i', In (n, s', i') L -> compat n nm = true -> higher c n = false) /\
+  exists x, In x (a_imps a) /\ ae_name x = c /\ ae_sort x = s /\
+            (forall y, In y (a_imps a) -> compat (ae_name y) nm = true -> y = x).
+Proof. exact AggProofs.canonical_is_highest_on_track. Qed.
+Print Assumptions canonical_is_highest_on_track.
+
+(** the specification's canonical name does not depend on the order in which names are listed *)
+Theorem canon_order_independent : forall names names' q,
+  (forall x, In x names <-> In x names') -> canon_in names q = canon_in names' q.
+Proof. exact AggProofs.canon_in_set. Qed.
+Print Assumptions canon_order_independent.
+
+(** the exported names and sorts of the model encoder's output are exactly the designated export names
+    (every type definition is among them) with the sort of the designated node — for every emission
+    order and every type-encoder behaviour; side conditions as for C02 [wiring_correct] plus two clauses
+    of the C06 graph invariant (definitions are exported; exports designate live nodes) *)
+Theorem exports_spec : forall e u g dc tau ord st names w,
+  EncInv e u g -> topo_orderb g ord = true ->
+  encode_with_order e u g dc tau ord = ROk (st, names) ->
+  (forall p, In p (e_dedup st) -> fst p = snd p) ->
+  decode_wiring names (e_log st) = Some w ->
+  (forall n, In n ord -> is_def g n = true -> exists nm, In (nm, n) (exports g)) ->
+  (forall nm n, In (nm, n) (exports g) -> live g n = true) ->
+  forall nm s, In (nm, s) (map export_sig (w_exports w)) <-> In (nm, s) (spec_export_names e g).
+Proof. exact WiringCorrect.exports_spec. Qed.
+Print Assumptions exports_spec.
+
+(** without "a definition has one export name" the statement is false of the faithful model (and of the code) *)
+Theorem exports_spec_multi_named_definition_refuted :
+  match encoded ops_def_two_names true with
+  | Some (dec, spec, dd) => dd = [] /\ dec <> spec
+  | None => False
+  end.
+Proof. exact def_two_names_refutes. Qed.
+Print Assumptions exports_spec_multi_named_definition_refuted.
+
+(** imports_spec (the import items of the model log, minus those made by the type encoder, are exactly
+    [spec_imports]: explicit + canonicalised implicit names + package imports) is NOT proved yet: the
+    invariants of proofs/WiringImports.v track the index spaces, not [d_imports]. It follows the same
+    route ([AggInv] gives one entry per canonical name; [import_step] emits one [IImport] per entry
+    unless answered by an already imported interface). The real import sections are compared with
+    [spec_imports] by ./check C03 on every run. *)
